@@ -259,6 +259,72 @@ def flatten_consumption_case(N, select_owner):
     return h
 
 
+def forall_consumption_case(N):
+    """for_all stops pulling its lazily produced universal domain as soon as no candidate is left"""
+
+    def h(ctx):
+        from krrood.entity_query_language.entity import for_all as _for_all
+
+        del LOG[:]
+        xv = ctx.fresh_int("xa")
+        n = 1 + ctx.choice("n", N)
+        ys = [P(ctx.fresh_int("ya%d" % i)) for i in range(n)]
+        gy = Gen("y", ys)
+        x = let(P, [P(xv)], name="x")
+        y = let(P, gy, name="y")
+        q = an(entity(x, _for_all(y, x.a <= y.a)))
+        built_clean = gy.taken == 0
+        res = list(q.evaluate())
+        holds = [xv <= o.a for o in ys]
+        first_bad = next((i for i, hd in enumerate(holds) if not hd), None)  # (forks on the symbolic values)
+        ctx.observe(n, len(res), gy.taken, first_bad)
+        ctx.note("nonempty", bool(res))
+        v = {"construction-touches-nothing": built_clean}
+        v["result-as-quantified"] = len(res) == (1 if first_bad is None else 0)
+        # the universal domain is read up to the first value that rules the only candidate out, not further
+        v["no-read-ahead-on-the-universal-domain"] = gy.taken == (n if first_bad is None else first_bad + 1)
+        return v
+
+    return h
+
+
+def constrained_consumption_case(N, kind):
+    """a result-count constraint does not make the evaluation read ahead: the k-th result is handed out as soon as it is found"""
+
+    def h(ctx):
+        from krrood.entity_query_language.result_quantification_constraint import AtLeast, Exactly, Range, AtMost
+
+        del LOG[:]
+        n = 1 + ctx.choice("n", N)
+        xs = [P(ctx.fresh_int("xa%d" % i)) for i in range(n)]
+        gx = Gen("x", xs)
+        kk = ctx.fresh_int("k")
+        bound = 1 + ctx.choice("bound", 3)
+        c = {"atleast": AtLeast(bound), "exactly": Exactly(bound), "range": Range(AtLeast(bound), AtMost(bound + 1))}[kind]
+        x = let(P, gx, name="x")
+        q = an(entity(x, x.a > kk), quantification=c)
+        full = [i for i in range(n) if xs[i].a > kk]
+        j = 1 + ctx.choice("j", n)
+        got = 0
+        it = iter(q.evaluate())
+        try:
+            for _ in range(j):
+                next(it)
+                got += 1
+        except StopIteration:
+            pass
+        except Exception as e:  # the constraint may fail once the domain is exhausted or the upper bound is exceeded
+            ctx.observe("raised %s" % type(e).__name__)
+        ctx.observe(n, bound, j, full, got, gx.taken)
+        ctx.note("nonempty", got > 0)
+        v = {}
+        if got == j:
+            v["no-read-ahead-under-a-count-constraint"] = gx.taken == full[j - 1] + 1
+        return v
+
+    return h
+
+
 def cases(tier, seed):
     N = 2 if tier == "quick" else 4
     cs = []
@@ -292,6 +358,9 @@ def cases(tier, seed):
     for c in two:
         c = relabel_lits(c)
         cs.append(Case("consume entity(x|%s)|N<=%d" % (show(c), N), consumption_case(c, N, True), key="consume entity(x|%s)" % show(c), reset=eql_reset, validate=1, timeout=300, max_paths=100000))
+    cs.append(Case("consume for_all over a lazily produced universal domain|N<=%d" % (N + 1), forall_consumption_case(N + 1), key="consume for_all", reset=eql_reset, validate=1, timeout=300))
+    for kind in ("atleast", "exactly", "range"):
+        cs.append(Case("consume under a result-count constraint|%s|N<=%d" % (kind, N + 1), constrained_consumption_case(N + 1, kind), key="consume constrained|" + kind, reset=eql_reset, validate=1, timeout=300))
     for so in (False, True):
         nm = "consume flatten(x.kids) over a lazily produced attribute|select=%s" % ("x" if so else "element")
         cs.append(Case(nm + "|N<=%d" % (N + 1), flatten_consumption_case(N + 1, so), key=nm, reset=eql_reset, validate=1, timeout=300, max_paths=100000))
@@ -305,7 +374,7 @@ def describe(tier):
         "attribute reads / method calls / truth tests, logging predicates; the log must be empty when construction returns. "
         "(b) data symbolic, k symbolic: pull k results and stop; they are a prefix of the full result list of a fresh identical query, the outermost lazy domain "
         "was advanced exactly to the element that produced the k-th result (no read-ahead), nothing at all is consumed before the first next(), and a second "
-        "evaluation started after abandoning the first is demand driven too; flatten(x.kids) over an attribute that is itself a one-shot generator is read exactly up to the element that produced the last pulled result. non-trivial = >= 2 feasible paths and a non-empty result",
+        "evaluation started after abandoning the first is demand driven too; for_all reads its universal (generator) domain only up to the value that rules the last candidate out; a result-count constraint (AtLeast / Exactly / Range) does not delay results; flatten(x.kids) over an attribute that is itself a one-shot generator is read exactly up to the element that produced the last pulled result. non-trivial = >= 2 feasible paths and a non-empty result",
         bounds=dict(objects_per_domain="<= 3 (quick) / <= 5 (thorough) for one-variable shapes, <= 2/4 for two-variable shapes", values="unbounded integers", k="0..all+1"),
         outside=["consumption of inner (non-outermost) domains beyond 'nothing before the first next()'", "laziness of ORM/SQL evaluation"],
         assumptions=["the engine's loop order puts x outermost for the shapes of part (b) (x is the left-most variable)"],
